@@ -87,7 +87,13 @@ WRITTEN = [
     ("Select(ds, lambda e: {**{'a': e.a}, 'b': e.b}.b)", False),
     ("Select(ds, lambda e: {'a': e.a, 'a': e.b}['a'])", False), ("Select(ds, lambda e: {'a': e.a, 'a': e.b}.a)", False),
     ("Select(ds, lambda e: {1: e.a, True: e.b}[1])", False), ("Select(ds, lambda e: {0: e.a, False: e.b, 0.0: e.a + e.b}[0])", False),
-    ("Select(ds, lambda e: {e.a: 1, 'k': e.b}['k'])", False), ("Select(ds, lambda e: {e.a: 1, e.b: 2}[e.a])", False),
+    ("Select(ds, lambda e: {e.a: 1, 'k': e.b}['k'])", False), ("Select(ds, lambda e: {'k': e.b, e.jets: 1}['k'])", False),
+    # a computed key BEHIND the written one that may be equal to it when the query runs
+    ("Select(ds, lambda e: {1: e.a + 10, e.b: 7}[1])", False), ("Select(ds, lambda e: {0: e.a + 10, e.b: 7}[0])", False),
+    ("Select(ds, lambda e: {2: e.b + 10, e.a: 7}[2])", False), ("Select(ds, lambda e: {1: e.a + 10, e.a: 7, e.b: 8}[1])", False),
+    ("Select(Select(ds, lambda e: {1: e.a + 10, e.b: 7}), lambda d: d[1])", False),
+    ("Select(ds, lambda e: {'k': 1, ('k', 0)[0]: 2}['k'])", False), ("Select(ds, lambda e: {'k': 1, e.b: 2}.k)", False),
+    ("Select(ds, lambda e: {'a': 1, e.b: 2}['zz'])", False), ("Select(Select(ds, lambda e: {'k': e.a, e.b: 2}), lambda d: d['k'])", False), ("Select(ds, lambda e: {e.a: 1, e.b: 2}[e.a])", False),
     ("Select(Select(ds, lambda e: {'a': e.a, 'a': e.b}), lambda d: d.a)", False),
     ("Select(ds, lambda e: (e.a, e.b)[True])", False), ("Select(ds, lambda e: [e.a, e.b][False])", False),
     # lambdas with unusual signatures meeting the fusion rules (python accepts a call with one argument for each of them)
@@ -215,7 +221,10 @@ class C18(Check):
         signal.signal(signal.SIGALRM, _alarm)
         signal.alarm(20)
         try:
-            return ("ok", simplify_chained_calls().visit(copy.deepcopy(q)))
+            r = simplify_chained_calls().visit(copy.deepcopy(q))
+            if not isinstance(r, ast.AST):
+                return ("raised", f"NotAnAST: the simplifier returned {type(r).__name__}")
+            return ("ok", r)
         except FuncADLIndexError as e:
             return ("indexerror", str(e))
         except _Timeout:
@@ -254,7 +263,11 @@ class C18(Check):
         wf = wellformed(r)
         if wf:
             res["oc"].append(wf[0])
-            res["viol"].append({"kind": wf[0], "canon": src, "msg": wf[1][:200] + " :: " + ast.dump(r)[:300]})
+            try:
+                shown = ast.dump(r)[:300]
+            except Exception as e:  # e.g. None where a node belongs
+                shown = f"(not dumpable: {type(e).__name__}: {e})"
+            res["viol"].append({"kind": wf[0], "canon": src, "msg": wf[1][:200] + " :: " + shown})
             return res
         changed = ast.dump(r) != ast.dump(q)
         if changed:
